@@ -895,8 +895,25 @@ fn extract(src: &Src, b: &Block, report: &mut Vec<serde_json::Value>, vacuity: b
     let mut col = Collector { src: text, srcmap: b.srcs.clone(), ..Default::default() };
     // R1 attributes on the item
     for a in f.attrs {
-        let keep = keepderive && a.path().is_ident("derive");
-        if !keep {
+        if keepderive && a.path().is_ident("derive") {
+            // keep only the derives Verus understands (Clone, Copy); Debug/Serialize/... are dropped (R1)
+            let mut kept: Vec<String> = Vec::new();
+            let _ = a.parse_nested_meta(|m| {
+                if let Some(id) = m.path.get_ident() {
+                    let n = id.to_string();
+                    if n == "Clone" || n == "Copy" {
+                        kept.push(n);
+                    }
+                }
+                Ok(())
+            });
+            let (s, e) = range(a.span());
+            if kept.is_empty() {
+                col.remove_attr(a);
+            } else {
+                col.push(s, e, format!("#[derive({})]", kept.join(", ")), "R1");
+            }
+        } else {
             col.remove_attr(a);
         }
     }
